@@ -90,6 +90,17 @@ def replay(arg):
         conv = "names" if idx % 3 else "alias"
         t4gen.write(d, to_py(ds), lidar_channel=chan, vis_convention=conv)
         rep = {"dataset": ds, "merge": merge, "lidar": chan, "visibility_convention": conv}
+        # a dataset with two or more samples: after an interpolating lookup half way between the first two samples the loaded frames must still
+        # describe their own samples (checked by the ordinary comparison below, which runs on the frames after the lookup)
+        def lookup_between(frames_):
+            from perception_eval.common.dataset import get_interpolated_now_frame
+
+            if len(frames_) >= 2 and frames_[0].unix_time < frames_[1].unix_time:
+                try:
+                    get_interpolated_now_frame(frames_, (frames_[0].unix_time + frames_[1].unix_time) // 2, 10**12)
+                except Exception:
+                    pass      # what an interpolating lookup answers is C17's subject; here it only has to leave the loaded frames alone
+
         for key, task, fid in (("det_ego", "detection", "base_link"), ("det_map", "detection", "map"), ("trk_map", "tracking", "map"), ("trk_ego", "tracking", "base_link"),
                                ("det_ego", "sensing", "base_link")):
             times_ = [s_["time"] for s_ in ds["samples"]]
@@ -102,6 +113,8 @@ def replay(arg):
             except Exception as ex:
                 mism.append(("raised", "load_all_datasets(%s, %s) raised %r" % (task, fid, ex), rep))
                 continue
+            if idx % 2 == 0:
+                lookup_between(frames)
             compare_frames(frames, out[key], task, fid, dict(rep, task=task, frame_id=fid), mism)
     finally:
         shutil.rmtree(d, ignore_errors=True)
